@@ -2,7 +2,7 @@
 import numpy as np
 import impl, cases
 from gen import grid, data, unc, material
-from .common import tolist, Unchanged, keyword_call_differs, exceeds
+from .common import tolist, Unchanged, keyword_call_differs, exceeds, confusable
 
 LEAN = "PystogVerif.Props.C09"
 LEAN_EXTRA = ["PystogVerif.Props.C09All"]
@@ -75,6 +75,15 @@ def evaluate(case):
             type(ff)().G_using_DCS(r, g, q, f + kw["<b_tot^2>"], cutoff, dg, df, **dkw)
         except Exception:  # noqa: BLE001
             pass
+        # ... and nothing of what this one was asked before: the same object first filters, through the G(r) and G_K(r) variants, a data set
+        # on look-alike grids (same number of points, same first and last point, other points in between)
+        r2c, q2c = confusable(r), confusable(q)
+        if (r2c is not None or q2c is not None) and len(r) <= 300 and len(q) <= 300:
+            for prim in ("G_using_F", "GK_using_S", "g_using_DCS"):
+                try:
+                    getattr(ff, prim)(r if r2c is None else r2c, g, q if q2c is None else q2c, f, cutoff, dg, df, **kw)
+                except Exception:  # noqa: BLE001
+                    pass
         guard = Unchanged(r, g, q, f, dg, df)
         ref = [np.asarray(o, dtype=float) for o in ff.g_using_F(r, g, q, f, cutoff, dg, df, **kw)]
         if guard.violated():
